@@ -120,15 +120,16 @@ type mode struct {
 
 // treeRun interprets a TreeCase.
 type treeRun struct {
-	c     TreeCase
-	md    mode
-	o     *vk.Obs
-	insts []*inst
-	act   int
-	step  int // op index (for tags and messages)
-	sub   int // sub-step inside a macro op
-	tag   int
-	cmps  int // comparator call counter
+	c        TreeCase
+	md       mode
+	o        *vk.Obs
+	insts    []*inst
+	act      int
+	step     int // op index (for tags and messages)
+	sub      int // sub-step inside a macro op
+	tag      int
+	cmps     int    // comparator call counter
+	cheapKey *int64 // see after()
 
 	// measurements
 	monoRun, drained, twoChild, clones, drainEmpty int
@@ -365,7 +366,17 @@ func (r *treeRun) after(in *inst, full bool) string {
 			}
 		}
 	}
-	if r.md.depth {
+	if r.md.depth && r.cheapKey != nil {
+		// inside a long monotone run: the full O(n) height walk is done every
+		// 16th element; in between only the depth of the key just inserted is
+		// measured (comparisons of a successful lookup = depth + 1)
+		r.cmps = 0
+		if _, ok := t.Get(Key{K: *r.cheapKey}); ok && n > 0 {
+			if d := r.cmps - 1; !withinBound(d, r.c.Beta, in.peak) {
+				return r.errf("key %s lies at depth %d, but log_{2000/%d}(P=%d)+1 allows at most %d (Len %d)", kstr(*r.cheapKey), d, 1000+r.c.Beta, in.peak, maxDepthAllowed(r.c.Beta, in.peak), n)
+			}
+		}
+	} else if r.md.depth {
 		h := height(t)
 		if h > r.maxHeight {
 			r.maxHeight = h
@@ -672,8 +683,13 @@ func (r *treeRun) apply(op Op) string {
 		return r.checkAfter(in, k, op.B)
 	case "afterAbsent":
 		return r.checkAfter(in, in.absentNear(op.A), op.B)
-	case "asc", "desc", "zig":
+	case "asc", "desc", "zig", "ascL", "descL":
 		n := op.A%40 + 1
+		kind := op.Kind
+		if kind == "ascL" || kind == "descL" { // long monotone run: loose balance factors need hundreds of keys to show
+			n = op.A%1400 + 300
+			kind = kind[:len(kind)-1]
+		}
 		if n >= 8 {
 			r.monoRun++
 		}
@@ -685,12 +701,17 @@ func (r *treeRun) apply(op Op) string {
 			}
 			var k int64
 			switch {
-			case op.Kind == "asc", op.Kind == "zig" && i%2 == 0:
+			case kind == "asc", kind == "zig" && i%2 == 0:
 				k = hi + int64(1)<<keyShift
 			default:
 				k = lo - int64(1)<<keyShift
 			}
-			if msg := r.doAdd(in, k, false); msg != "" {
+			if n > 60 && i%16 != 0 && i != n-1 {
+				r.cheapKey = &k
+			}
+			msg := r.doAdd(in, k, false)
+			r.cheapKey = nil
+			if msg != "" {
 				return msg
 			}
 		}
